@@ -42,7 +42,7 @@ fn rl_queries(g: &mut Gen, name: &str, runs: &[(u64, u64)], len: u64, samples: u
     for r in &zr { lines.push(format!("rl {} select0 {}", name, r)); }
     lines.push(format!("rl {} runs", name));
     // positioned iterators continue with consecutive items across run and block boundaries
-    let stepi = std::cmp::max(1, runs.len() / 12);
+    let stepi = if runs.len() <= 400 { 1 } else { std::cmp::max(1, runs.len() / 150) };
     for (a, l) in runs.iter().step_by(stepi) {
         // (default `nth` walks item by item: keep the skips small)
         let (k1, k2) = (std::cmp::min(*l, 40), std::cmp::min(l.saturating_mul(2).saturating_add(1), 90));
@@ -202,8 +202,8 @@ pub fn c10_rl(g: &mut Gen) {
     lines.push(format!("rl A it run : {} n", vec!["n"; runs.len()].join(" ")));
     // positioned iterators started inside / at the end of / just after runs in every block, then continued across the
     // following run and block boundaries
-    let stepi = std::cmp::max(1, runs.len() / 40);
-    for (a, l) in runs.iter().step_by(stepi) {
+    // EVERY run (the interesting ones are the last run of each block, and nobody knows here which those are)
+    for (a, l) in runs.iter() {
         for x in [*a, a + l - 1, a + l, a.saturating_sub(1)] {
             lines.push(format!("rl A it pred {} : n n n N3 n l N9 n n l", x));
             lines.push(format!("rl A it succ {} : n n n N3 n l N9 n n l", x));
